@@ -4,7 +4,7 @@
    `cur_tables` packs them.  Theorems are stated for every table where possible and instantiated with the current one. *)
 From Coq Require Import List NArith Bool.
 From Coq.Strings Require Import Byte.
-From EV Require Import Base.Bytes Gen.Tables Model.PsetMap Model.PsetTx Model.PsetMerge Proofs.PsetMap Proofs.PsetMerge.
+From EV Require Import Base.Bytes Gen.Tables Model.PsetMap Model.PsetTx Model.PsetMerge Proofs.PsetMap Proofs.PsetMerge Proofs.PsetTx.
 Import ListNotations.
 
 (* ------------------------------------------------------------------ the unique-id gate *)
@@ -27,37 +27,39 @@ Theorem C14_keeps_all : forall (id : Type) (id_eqb : id -> id -> bool) (uid : ps
         exists z, nth_error (poutputs c) i = Some z /\ kept pset_output_merge x y z).
 Proof. intros id id_eqb uid a b c H. apply (merge_keeps_all id_eqb uid cur_tables a b c); [vm_compute; reflexivity|exact H]. Qed.
 
-(* the fields `kept` speaks about, and the ones it does not (computed from the regenerated tables): finding F3.
-   These three Examples pin the Known class; they change when a `merge!` line is added or removed. *)
+(* the fields `kept` speaks about, and the ones it does not (computed from the regenerated tables).
+   These three Examples pin the complement; they change when a `merge!` line is added or removed.  After the F3 repair (merge! for
+   sighash_type, sequence, amount, asset) what is left is: tx_data.fallback_locktime (finding F3-global-fallback_locktime-dropped, not
+   repaired), non_witness_utxo (cleared by an arriving witness_utxo: F3-witness-utxo-clears-non-witness-utxo, not repaired) and the two
+   output commitments, which are part of the transaction and therefore equal in operands that pass the gate (C14_commitments_fixed_by_uid). *)
 Example C14_known_lost_global : lost_optional pset_global_fields pset_global_merge = [fld "tx_data.fallback_locktime"].
 Proof. vm_compute. reflexivity. Qed.
-Example C14_known_lost_input : lost_optional pset_input_fields pset_input_merge = [fld "non_witness_utxo"; fld "sighash_type"; fld "sequence"].
+Example C14_known_lost_input : lost_optional pset_input_fields pset_input_merge = [fld "non_witness_utxo"].
 Proof. vm_compute. reflexivity. Qed.
-Example C14_known_lost_output : lost_optional pset_output_fields pset_output_merge = [fld "amount"; fld "amount_comm"; fld "asset"; fld "asset_comm"].
+Example C14_known_lost_output : lost_optional pset_output_fields pset_output_merge = [fld "amount_comm"; fld "asset_comm"].
 Proof. vm_compute. reflexivity. Qed.
-(* mandatory fields that are not merged (equal in both operands whenever the unique ids are: C14_unmerged_fixed_by_uid in C08's model) *)
+(* mandatory fields that are not merged: always present, so nothing can be lost *)
 Example C14_unmerged_mandatory :
   (unmerged_mandatory pset_global_fields pset_global_merge, unmerged_mandatory pset_input_fields pset_input_merge, unmerged_mandatory pset_output_fields pset_output_merge)
   = ([fld "tx_data.version"; fld "tx_data.input_count"; fld "tx_data.output_count"], [fld "previous_txid"; fld "previous_output_index"], [fld "script_pubkey"]).
 Proof. vm_compute. reflexivity. Qed.
-(* non-vacuity: 7 + 43 + 15 fields are covered by C14_keeps_all *)
+(* non-vacuity: 7 + 45 + 17 fields are covered by C14_keeps_all *)
 Example C14_kept_counts : (length (kept_fields pset_global_fields pset_global_merge), length (kept_fields pset_input_fields pset_input_merge),
-                           length (kept_fields pset_output_fields pset_output_merge)) = (7, 43, 15)%nat.
+                           length (kept_fields pset_output_fields pset_output_merge)) = (7, 45, 17)%nat.
 Proof. vm_compute. reflexivity. Qed.
 
-(* F3: every optional field the table does not merge is lost when only `other` carries it (witness operands: the empty map and
-   the map with just that field) *)
-Theorem C14_keeps_all_refuted : forall tbl fields f,
-  In (tbl, fields) [(pset_global_merge, pset_global_fields); (pset_input_merge, pset_input_fields); (pset_output_merge, pset_output_fields)] ->
-  In f (optional_not_merged fields tbl) ->
-  exists a b c, merge_map_with xpub_take_arm_guarded tbl a b = Val c /\ unk b f <> None /\ unk c f = None.
-Proof.
-  intros tbl fields f HT HF. apply loses_witness.
-  assert (forallb (fun tf => forallb (loses xpub_take_arm_guarded (fst tf)) (optional_not_merged (snd tf) (fst tf)))
-            [(pset_global_merge, pset_global_fields); (pset_input_merge, pset_input_fields); (pset_output_merge, pset_output_fields)] = true) as K
-    by (vm_compute; reflexivity).
-  rewrite forallb_forall in K. specialize (K _ HT). cbn [fst snd] in K. rewrite forallb_forall in K. exact (K _ HF).
-Qed.
+(* the two output commitments have no statement, but they are part of the id pre-image: operands whose unique-id pre-images are equal
+   (which is what passing the gate means, up to a hash collision) carry the same commitments at every output position *)
+Theorem C14_commitments_fixed_by_uid : forall p q t, uid_preimage p = Val t -> uid_preimage q = Val t ->
+  forall i x y, nth_error (poutputs p) i = Some x -> nth_error (poutputs q) i = Some y ->
+    unk x (fld "amount_comm") = unk y (fld "amount_comm") /\ unk x (fld "asset_comm") = unk y (fld "asset_comm").
+Proof. intros p q t. apply commitments_fixed_by_uid. Qed.
+
+(* F3-global-fallback_locktime-dropped (not repaired): the only optional field of Global that has no statement is lost when only
+   `other` carries it (witness operands: the empty map and the map with just that field) *)
+Theorem C14_keeps_all_refuted :
+  exists a b c, merge_map_with xpub_take_arm_guarded pset_global_merge a b = Val c /\ unk b (fld "tx_data.fallback_locktime") <> None /\ unk c (fld "tx_data.fallback_locktime") = None.
+Proof. apply loses_witness. vm_compute. reflexivity. Qed.
 (* F3-witness-utxo-clears-non-witness-utxo: a witness_utxo arriving from `other` deletes self's non_witness_utxo *)
 Theorem C14_utxo_clearing_refuted :
   exists a b c, merge_map_with xpub_take_arm_guarded pset_input_merge a b = Val c /\ unk a (fld "non_witness_utxo") <> None /\ unk c (fld "non_witness_utxo") = None.
@@ -76,14 +78,14 @@ Theorem C14_commutes : forall (id : Type) (id_eqb : id -> id -> bool) (uid : pse
 Proof. intros. apply (merge_commutes id_eqb uid cur_tables a b x y); auto. Qed.
 Theorem C14_descendants_compat : forall o a b, extends o a -> extends o b -> additions_agree o a b -> compat a b.
 Proof. exact descendants_compat. Qed.
-(* without the restriction the statement is false: F3 (a descendant that added `sequence`) and the utxo clearing make the result
-   depend on the order — witnesses at one input map *)
+(* without the restriction the statement is false: a descendant that added the (unmerged) fallback lock time makes the result depend on
+   the order — witness at the global map *)
 Theorem C14_commutes_refuted : exists a b c c',
   wf_map a /\ wf_map b /\ compat a b /\
-  merge_map_with xpub_take_arm_guarded pset_input_merge a b = Val c /\ merge_map_with xpub_take_arm_guarded pset_input_merge b a = Val c' /\
-  unk c (fld "sequence") <> unk c' (fld "sequence").
+  merge_map_with xpub_take_arm_guarded pset_global_merge a b = Val c /\ merge_map_with xpub_take_arm_guarded pset_global_merge b a = Val c' /\
+  unk c (fld "tx_data.fallback_locktime") <> unk c' (fld "tx_data.fallback_locktime").
 Proof.
-  exists empty_map, (set_unk empty_map (fld "sequence") (Some [x01; x00; x00; x00])).
+  exists empty_map, (set_unk empty_map (fld "tx_data.fallback_locktime") (Some [x01; x00; x00; x00])).
   eexists. eexists. split; [intros f; reflexivity|]. split; [intros f; reflexivity|]. split; [split; cbn; intros; discriminate|].
   split; [vm_compute; reflexivity|]. split; [vm_compute; reflexivity|]. vm_compute. discriminate.
 Qed.
@@ -118,23 +120,21 @@ Qed.
    (every permutation and grouping of 2..4 descendants is merged on the implementation and on the model and all results compared). *)
 
 (* ------------------------------------------------------------------ xpub key-source reconciliation *)
-(* outside the two known classes the code does what its comment documents, and in particular never panics; v1 is the source
-   arriving from `other`, v2 the one in `self` *)
-Theorem C14_xpub : forall v1 v2,
-  known_F2 xpub_take_arm_guarded v1 v2 = false -> known_F4 xpub_take_arm_guarded v1 v2 = false ->
-  reconcile v1 v2 = reconcile_doc v1 v2 /\ reconcile v1 v2 <> XPanic.
-Proof. intros v1 v2 H2 H4. unfold reconcile. rewrite (reconcile_as_documented _ _ _ H2 H4). split; [reflexivity|apply reconcile_doc_no_panic]. Qed.
-(* the same statement for the repaired shape of the third test holds without exceptions *)
-Theorem C14_xpub_guarded : forall v1 v2, reconcile_with true v1 v2 = reconcile_doc v1 v2.
-Proof. intros. apply reconcile_as_documented; reflexivity. Qed.
-(* F2: self's path [1,2,3], other's [9]: usize underflow *)
-Theorem C14_xpub_refuted_panic : exists v1 v2, reconcile v1 v2 = XPanic /\ reconcile_doc v1 v2 = XConflict.
-Proof. exists (repeat x00 4 ++ [x09; x00; x00; x00]), (repeat x00 4 ++ [x01; x00; x00; x00; x02; x00; x00; x00; x03; x00; x00; x00]). vm_compute. auto. Qed.
-(* F4: equal path, different fingerprint: replaced instead of reported *)
-Theorem C14_xpub_refuted_fingerprint : exists v1 v2, reconcile v1 v2 = XTake /\ reconcile_doc v1 v2 = XConflict.
-Proof. exists ([x01; x01; x01; x01] ++ [x01; x00; x00; x00]), ([x00; x00; x00; x00] ++ [x01; x00; x00; x00]). vm_compute. auto. Qed.
-Example C14_xpub_nonvacuous : known_F2 xpub_take_arm_guarded (repeat x00 8) (repeat x00 12) = false /\ known_F4 xpub_take_arm_guarded (repeat x00 8) (repeat x00 12) = false
-  /\ reconcile (repeat x00 8) (repeat x00 12) = XKeep /\ reconcile (repeat x00 12) (repeat x00 8) = XTake.
+(* for every pair of key sources the code does what its comment documents (keep / take the longer / MergeConflict) and never panics;
+   v1 is the source arriving from `other`, v2 the one in `self`.  (Before the F2+F4 repair this needed the exclusion of two classes; the
+   third test now checks the length before slicing: Gen.Tables.xpub_take_arm_guarded = true.) *)
+Theorem C14_xpub : forall v1 v2, reconcile v1 v2 = reconcile_doc v1 v2 /\ reconcile v1 v2 <> XPanic.
+Proof.
+  intros v1 v2. assert (reconcile v1 v2 = reconcile_doc v1 v2) as E by (apply reconcile_as_documented; reflexivity).
+  rewrite E. split; [reflexivity|apply reconcile_doc_no_panic].
+Qed.
+(* hence merging the xpub maps can only fail with MergeConflict, never panic *)
+Example C14_xpub_examples :
+  reconcile (repeat x00 8) (repeat x00 12) = XKeep /\ reconcile (repeat x00 12) (repeat x00 8) = XTake
+  /\ (* former F2 witness: self [1,2,3], other [9] *)
+     reconcile (repeat x00 4 ++ [x09; x00; x00; x00]) (repeat x00 4 ++ [x01; x00; x00; x00; x02; x00; x00; x00; x03; x00; x00; x00]) = XConflict
+  /\ (* former F4 witness: equal path, different fingerprint *)
+     reconcile ([x01; x01; x01; x01] ++ [x01; x00; x00; x00]) ([x00; x00; x00; x00] ++ [x01; x00; x00; x00]) = XConflict.
 Proof. vm_compute. auto. Qed.
 
 Check (C14_gate : forall (id : Type) (id_eqb : id -> id -> bool) (uid : pset -> outcome id) a b,
@@ -147,9 +147,7 @@ Check (C14_keeps_all : forall (id : Type) (id_eqb : id -> id -> bool) (uid : pse
         exists z, nth_error (pinputs c) i = Some z /\ kept pset_input_merge x y z) /\
     (forall i x y, nth_error (poutputs a) i = Some x -> nth_error (poutputs b) i = Some y ->
         exists z, nth_error (poutputs c) i = Some z /\ kept pset_output_merge x y z)).
-Check (C14_xpub : forall v1 v2,
-  known_F2 xpub_take_arm_guarded v1 v2 = false -> known_F4 xpub_take_arm_guarded v1 v2 = false ->
-  reconcile v1 v2 = reconcile_doc v1 v2 /\ reconcile v1 v2 <> XPanic).
+Check (C14_xpub : forall v1 v2, reconcile v1 v2 = reconcile_doc v1 v2 /\ reconcile v1 v2 <> XPanic).
 Check (C14_commutes : forall (id : Type) (id_eqb : id -> id -> bool) (uid : pset -> outcome id) a b x y,
   uid a = Val x -> uid b = Val y -> id_eqb x y = true -> id_eqb y x = true -> pset_pair_ok cur_tables a b ->
   exists c c', merge id_eqb uid a b = Val c /\ merge id_eqb uid b a = Val c' /\ pset_equiv c c').
